@@ -54,7 +54,37 @@ def is_subseq(a, b):
     return all(any(x == y for y in it) for x in a)
 
 
+def aimed_nested_doc(rng, info):
+    """a list inside an isolating node that itself sits inside a list item (and, for the table schema, inside a cell of a
+    table inside a list item): lifting the inner items must stop at the isolating node although an ancestor list further
+    out could hold them"""
+    S = info.schema
+    n = S.node
+    def para(t):
+        return n("paragraph", None, [S.text(t)] if t else [])
+    inner = n(rng.choice(["bullet_list", "ordered_list"]), None,
+              [n("list_item", None, [para(rng.choice(["a", "bc", ""]))] +
+                 ([n("bullet_list", None, [n("list_item", None, [para("n")])])] if rng.random() < 0.3 else []))
+               for _ in range(rng.randint(1, 3))])
+    if "iso" in S.nodes and (rng.random() < 0.5 or "table" not in S.nodes):
+        holder = n("iso", None, [inner] + ([para("t")] if rng.random() < 0.4 else []))
+        if rng.random() < 0.4:
+            holder = n("blockquote", None, [holder])
+    elif "table" in S.nodes:
+        holder = n("table", None, [n("row", None, [n("cell", None, [inner]), ] + ([n("cell", None, [para("c")])] if rng.random() < 0.5 else []))])
+    else:
+        return None
+    outer = n("bullet_list", None, [n("list_item", None, [para("x"), holder])] + ([n("list_item", None, [para("y")])] if rng.random() < 0.5 else []))
+    d = n("doc", None, [outer] + ([para("z")] if rng.random() < 0.5 else []))
+    st, _ = outcome(d.check)
+    return d if st == "ok" else None
+
+
 def gen_iso_doc(rng, info):
+    if rng.random() < 0.3:
+        d = aimed_nested_doc(rng, info)
+        if d is not None and iso_nodes(d):
+            return d
     for _ in range(30):
         d = gen.gen_doc(rng, info.schema, budget=rng.choice([12, 25, 40]))
         if iso_nodes(d):
